@@ -841,8 +841,8 @@ func (r *runningStep) processInput(input executeInput) {
 			}
 		}
 		outputData = map[string]any{
-			"data":     dataMap,
-			"messages": errors,
+			"data":   dataMap,
+			"errors": errors,
 		}
 	} else {
 		r.currentStage = StageIDOutputs
